@@ -11,6 +11,7 @@
    E                          completed operations: "E t op k v ret inv res" one per line, then "E."
    Z                          "Z 1" when the history is linearizable w.r.t. the map the initial list stands for, else "Z 0"
    C                          branch counters of the run so far
+   V fuel                     the same at the granularity of single machine steps
    Y fuel                     explore every schedule of grants from the current state: "Y 1" all linearizable / "Y 0"
    M seed n                   n random schedules of grants from the current state (not modifying it): "M bad grants..." for the
                               first non-linearizable one, else "M ok" *)
@@ -151,6 +152,10 @@ let () =
      | ["Y"; f] ->
        let r = explore_sp !pol sof keq lin (nat_of_int (int_of_string f)) !st in
        Printf.printf "Y %d\n" (if r then 1 else 0)
+     | ["V"; f] ->
+       let t0 = Sys.time () in
+       let r = explore !pol sof keq lin (nat_of_int (int_of_string f)) !st in
+       Printf.printf "V %d %.2fs\n" (if r then 1 else 0) (Sys.time () -. t0)
      | ["M"; seed; n] ->
        rs := Int64.of_string seed;
        let nt = List.length !st.fs_thr in
